@@ -251,3 +251,82 @@ func verifC08InnerRaw() {
 	vAssert(c.ECHAccepted() || len(pt) == 0, "an authentic payload with a well-formed inner hello is accepted")
 	vC08Reads(c, 2)
 }
+
+// verifC08RetryExt: after an accepted first hello and a HelloRetryRequest, the
+// client's second hello is hostile: (a) pinned fixed part with a raw symbolic
+// extension block, or (b) an authentic seal (sequence number 1) over raw
+// plaintext / a raw inner extension block.  Read must return (no panic, no
+// spin), and a refusal is answered with one alert and end of stream.
+func verifC08RetryExt() {
+	st, tr, c := vC06Setup()
+	hrr := vServerHello(vHRRRandom, st.first.outer.sid)
+	n, err := c.Write(hrr)
+	vAssert(err == nil && n == len(hrr), "HelloRetryRequest forwarded")
+	var rec []byte
+	if vBool() {
+		E := vInt(0, 12+4*vTier())
+		ext := vBytes(E)
+		hello := vCat([]byte{0x03, 0x03}, vBytes(32), []byte{0x00, 0x00, 0x02, 0x13, 0x01, 0x01, 0x00}, vU16(E), ext)
+		rec = vRecord(22, 0x0301, vHandshake(hello))
+	} else {
+		outer2 := vHello{version: 0x0303, random: st.first.outer.random, sid: st.first.outer.sid, suites: []byte{0x13, 0x01}, comp: []byte{0}}
+		outer2.exts = []vExt{vSNI(st.name), vVersions(0x0304), {51, vBytes(2)}, {0xfe0d, nil}}
+		var pt []byte
+		if vBool() {
+			pt = vBytes(vInt(0, 40+2*vTier()))
+		} else {
+			e := vBytes(vInt(0, 10+3*vTier()))
+			pt = vCat([]byte{0x03, 0x03}, vBytes(32), []byte{0x00, 0x00, 0x02, 0x13, 0x01, 0x01, 0x00}, vU16(len(e)), e)
+		}
+		s2 := vSealWith(st.first.sender, []byte{}, st.k.id, 1, 1, outer2, 3, pt)
+		rec = s2.outer.record()
+	}
+	before := len(tr.out)
+	tr.in = append(tr.in, rec...)
+	buf := make([]byte, 700)
+	rn, rerr := c.Read(buf)
+	vAssert(rn >= 0 && rn <= len(buf), "Read count in range")
+	if rerr != nil {
+		vAssert(rn == 0, "a refused retried hello forwards nothing")
+		vAssert(len(tr.out) == before+7 && tr.closed, "a refused retried hello is answered with one alert and end of stream")
+		vReach("retry-refused")
+		return
+	}
+	vReach("retry-passed")
+	vC08Reads(c, 2)
+}
+
+// verifC08ServerHello: hostile backend bytes in a ServerHello-typed handshake
+// record (legacy version, random symbolic or the HelloRetryRequest value, then
+// raw bytes: session id, cipher suite, compression, extension block), written
+// whole or split after the record header: Write returns, in range.
+func verifC08ServerHello() {
+	random := vBytes(32)
+	if vBool() {
+		random = vHRRRandom
+	}
+	rest := vBytes(vInt(0, 10+4*vTier()))
+	body := vCat([]byte{0x03, 0x03}, random, rest)
+	msg := vCat([]byte{0x02}, vU24(len(body)), body)
+	if vBool() {
+		// an inconsistent handshake length
+		msg[3] = vByte()
+	}
+	rec := vRecord(22, 0x0303, msg)
+	tr := newVTransport(nil)
+	c := vAcceptedConn(tr, nil)
+	pieces := [][]byte{rec}
+	if vBool() {
+		pieces = [][]byte{rec[:5], rec[5:]}
+	}
+	for _, p := range pieces {
+		m, err := c.Write(p)
+		vAssert(m >= 0 && m <= len(p), "Write count in range")
+		if err != nil {
+			vReach("sh-refused")
+			return
+		}
+	}
+	vAssert(vBytesEq(tr.out, rec), "an accepted ServerHello record is forwarded unchanged")
+	vReach("sh-passed")
+}
